@@ -243,6 +243,30 @@ func checkAgainstCanonX(c *child.Ctx, cj []byte, cn *[2]canon, i int, li int, m 
 	if ref.Hash64(m.RawData) != before {
 		c.Violate("display-modifies-raw-bytes", fmt.Sprintf("%s: the raw bytes of frame %d changed while it was displayed", where, i), cj)
 	}
+	// a copy made AFTER the message has been decoded and displayed belongs to whoever
+	// holds it: what its holder does with its decoded form and its raw bytes leaves
+	// the original's display and bytes as they were
+	func() {
+		defer func() {
+			if r := recover(); r != nil {
+				c.Violate("panic", fmt.Sprintf("%s: copying frame %d after its display, or displaying the copy, panicked: %v", where, i, r), cj)
+			}
+		}()
+		cp := m.Copy()
+		cp.LogLevel = m.LogLevel
+		_ = cp.String()
+		scribble(cp.Readable)
+		for j := range cp.RawData {
+			cp.RawData[j] ^= 0x5a
+		}
+		if t3 := stripTime(m.String(), m); t3 != t {
+			c.Violate("display-not-repeatable", fmt.Sprintf("%s: after a copy of frame %d (taken once it had been displayed) was altered by its holder, the original displays differently: %s", where, i, diffText(t3, t)), cj)
+		}
+		if ref.Hash64(m.RawData) != before {
+			c.Violate("display-modifies-raw-bytes", fmt.Sprintf("%s: the raw bytes of frame %d changed when the raw bytes of its copy were altered", where, i), cj)
+		}
+		c.Count("copies_taken_after_display_and_altered", 1)
+	}()
 }
 
 func execC15History(c *child.Ctx, k detCase, cj []byte, pool [][]byte, cn [][2]canon) {
